@@ -35,7 +35,7 @@ def obligations(ctx):
     obs = ctx.verify(FUNCTIONS)
     # the frame of the citation cells on the exits of assemble() belongs to C07
     obs = [o for o in obs if "citation-qualifiers" not in o.name and "reference-list" not in o.name]
-    return obs + lemmas(ctx)
+    return obs + ctx.part(lemmas)
 
 
 def lemmas(ctx):
